@@ -23,7 +23,7 @@ ASSUMPTIONS = ['documented stencils: the first/last 2mm+2 points for the mm poin
                'value is the exact derivative of the polynomial',
                'bound C*(eps*size*sum_j|w_j fx_j| + measured sensitivity to node displacement eps*stencil width)']
 C_PT = 256.0
-KINDS = ['uniform', 'increasing', 'decreasing', 'geometric', 'jittered', 'tiny_unit', 'huge_unit']
+KINDS = ['uniform', 'increasing', 'decreasing', 'geometric', 'jittered', 'tiny_unit', 'huge_unit', 'integer_grid']
 
 
 def setup(ctx, mon):
@@ -51,6 +51,10 @@ def make_grid(rng, kind, length):
         return np.linspace(rng.uniform(-2, 0), rng.uniform(0.5, 3), length)
     if kind == 'geometric':
         return 0.1 * rng.uniform(1.05, 1.3) ** np.arange(length)
+    if kind == 'integer_grid':
+        # integer abscissae (uniform or not), handed over as an integer array or a list of Python ints, with integer samples
+        x = int(rng.integers(-20, 21)) + np.cumsum(rng.integers(1, 4 if rng.random() < 0.6 else 2, size=length))
+        return (x[::-1].copy() if rng.random() < 0.3 else x).astype(float)
     if kind == 'jittered':
         # almost uniform: spacing perturbed by a relative 1e-9 .. 1e-3 (a grid that "looks" uniform is not uniform)
         d = 10.0 ** rng.uniform(-2, 0)
@@ -74,6 +78,11 @@ def run_case(case, ctx):
     coefs = [int(c) for c in rng.integers(-9, 10, deg + 1)]
     if coefs[-1] == 0:
         coefs[-1] = 1
+    if case['kind'] == 'integer_grid':
+        deg = min(deg, 4)            # (keeps the integer samples far below 2**53)
+        coefs = coefs[:deg + 1]
+        if coefs[-1] == 0:
+            coefs[-1] = 1
     xs = [F(float(v)) for v in x]
     if case['kind'] in ('tiny_unit', 'huge_unit'):
         # polynomial in the grid's own unit: q(x) = p((x - shift)/unit), q^(n)(x) = p^(n)(.)/unit^n
@@ -81,11 +90,15 @@ def run_case(case, ctx):
         shift = xs[len(xs) // 2]
     else:
         unit = F(1)
-        shift = F(float(np.round(x.mean(), 2)))
+        shift = F(float(np.round(x.mean(), 2))) if case['kind'] != 'integer_grid' else F(int(round(float(x.mean()))))
     fx_exact = [poly_eval(coefs, (v - shift) / unit) for v in xs]
     fx = np.array([float(v) for v in fx_exact])
     dcoefs = poly_deriv(coefs, n)
     args = (list(fx), list(x)) if case['as_list'] else (fx.copy(), x.copy())
+    if case['kind'] == 'integer_grid':
+        ctx.count('integer_grid_cases')
+        xi, fi = x.astype(np.int64), np.array([int(v) for v in fx_exact], dtype=np.int64)
+        args = ([int(v) for v in fi], [int(v) for v in xi]) if case['as_list'] else (fi, xi)
     if case['seed'] % 2:
         # history: the same grid has already been differentiated in this process with other (n, m), preferably a higher
         # order on the same stencil width (whatever the library remembers about a stencil must not be served to another order)
@@ -105,7 +118,7 @@ def run_case(case, ctx):
     except Exception as exc:
         ctx.reject('raised', observed=repr(exc))
         return
-    if not case['as_list'] and (args[0].tobytes() != fx.tobytes() or args[1].tobytes() != x.tobytes()):
+    if not case['as_list'] and case['kind'] != 'integer_grid' and (args[0].tobytes() != fx.tobytes() or args[1].tobytes() != x.tobytes()):
         ctx.reject('input_modified')
         return
     out = np.asarray(out)
